@@ -10,6 +10,7 @@ A case is a JSON-able dict (paths are templates, `{B}` = a fresh per-case base d
   mds_before, mds_after       metadata dicts applied before / after the Select
   ttree        bool           finish the query with AsROOTTTree(...)
   outcome      {"chunks":[[kind, latin-1 text]], "ending":…, "at_call":bool, "write_result":bool}
+  more         [ {"mds_before","mds_after","ttree","outcome"} ]   further executions on the SAME dataset object
 Returned: {"obs": OBS as the Lean driver expects it, "model_inputs": …, "info": …}
 """
 from __future__ import annotations
@@ -24,7 +25,7 @@ import sys
 import tempfile
 import traceback
 from pathlib import Path
-from typing import Any, Dict, List
+from typing import Any, Dict, List, Optional
 
 STUBS = str(Path(__file__).resolve().parent.parent / "c17_stubs")
 if STUBS not in sys.path:
@@ -79,8 +80,32 @@ def md_is_bad(md: Dict[str, Any]) -> bool:
     return md.get("metadata_type") == "no_such_metadata_type"
 
 
-def model_inputs(case: Dict[str, Any], base: str, tmp_root: str) -> Dict[str, Any]:
+def steps_of(case: Dict[str, Any]) -> List[Dict[str, Any]]:
+    """The executions of a case, all on ONE dataset object: the top-level query/outcome, then those of `more`."""
+    first = {k: case.get(k, d) for k, d in (("mds_before", []), ("mds_after", []), ("ttree", False))}
+    first["outcome"] = case["outcome"]
+    return [first] + [dict(s) for s in case.get("more", [])]
+
+
+def model_step(step: Dict[str, Any]) -> Dict[str, Any]:
+    mds_all = step.get("mds_before", []) + step.get("mds_after", [])
+    oc = step["outcome"]
+    return {
+        "mds": [md_entry(m) for m in mds_all],
+        "translates": not any(md_is_bad(m) for m in mds_all),
+        "outcome": {
+            "chunks": [{"stdout": k == "stdout", "bytes": list(t.encode("latin-1"))} for k, t in oc.get("chunks", [])],
+            "ending": oc.get("ending", "success"),
+            "atCall": bool(oc.get("at_call", False)),
+            "resultPresent": bool(oc.get("write_result", True)),
+        },
+    }
+
+
+def model_inputs(case: Dict[str, Any], base: str, tmp_root: str, step: Optional[Dict[str, Any]] = None) -> Dict[str, Any]:
     """The same case as the Lean driver reads it (facts about the file system are measured here)."""
+    if step is not None:
+        case = {**case, **{k: step.get(k) for k in ("mds_before", "mds_after", "ttree", "outcome")}}
     cwd = subst(case.get("cwd") or "", base)
     files = [subst(f, base) for f in case["files"]]
 
@@ -149,13 +174,6 @@ def run_case(case: Dict[str, Any], row: Dict[str, Any], payload: str = "payload"
         tempfile.tempdir = str(tmp_root)
         if case.get("cwd"):
             os.chdir(subst(case["cwd"], base))
-        mi = model_inputs(case, base, str(tmp_root))
-
-        oc = dict(case["outcome"])
-        oc["payload"] = payload
-        oc["result_name"] = row["runnerResultName"]
-        ctl.reset(oc)
-
         files = [subst(f, base) for f in case["files"]]
         form = case.get("form", "list_str")
         if form == "list_path":
@@ -176,72 +194,89 @@ def run_case(case: Dict[str, Any], row: Dict[str, Any], payload: str = "payload"
         if case.get("outdir") is not None:
             kwargs["output_directory"] = Path(subst(case["outdir"], base))
 
-        obs: Dict[str, Any] = {
-            "ctorFailed": False, "err": None, "returned": [], "calls": [], "seenFilelist": None, "packageOk": False,
-            "pulled": 0, "delivered": False, "runDirLive": True, "leftover": 0,
-        }
-        info: Dict[str, Any] = {}
+        def blank() -> Dict[str, Any]:
+            return {
+                "ctorFailed": False, "err": None, "returned": [], "calls": [], "seenFilelist": None, "packageOk": False,
+                "pulled": 0, "delivered": False, "runDirLive": True, "leftover": 0,
+            }
+
+        steps = steps_of(case)
+        out_steps: List[Dict[str, Any]] = []
         sink = io.StringIO()
-        returned_paths: List[Path] = []
+        ctl.reset({})
         with contextlib.redirect_stdout(sink), contextlib.redirect_stderr(sink):
             cls = dataset_class(row)
             try:
                 ds = cls(farg, **kwargs)
             except Exception as e:
                 ds = None
+                obs = blank()
                 obs["ctorFailed"] = True
                 obs["err"] = err_class(e)
-                info["message"] = str(e)[:200]
-            if ds is not None:
-                try:
-                    q = ds
-                    for md in case.get("mds_before", []):
-                        q = q.MetaData(md)
-                    q = q.Select(SELECT[case["backend"]])
-                    if case.get("ttree"):
-                        q = q.AsROOTTTree("junk.root", "my_tree", ["col"])
-                    for md in case.get("mds_after", []):
-                        q = q.MetaData(md)
-                    r = asyncio.run(q.value_async())
-                    returned_paths = [Path(x) for x in r]
-                    obs["returned"] = [str(x) for x in r]
-                except Exception as e:
-                    obs["err"] = err_class(e)
-                    info["message"] = str(e)[:200]
+                out_steps.append({"obs": obs, "model_inputs": model_inputs(case, base, str(tmp_root), steps[0]), "info": {"message": str(e)[:200]}})
+        keep: set = set()
+        if ds is not None:
+            for k, step in enumerate(steps):  # every execution on the SAME dataset object
+                obs = blank()
+                info: Dict[str, Any] = {}
+                mi = model_inputs(case, base, str(tmp_root), step)
+                step_payload = f"{payload}-step{k}"
+                oc = dict(step["outcome"])
+                oc["payload"] = step_payload
+                oc["result_name"] = row["runnerResultName"]
+                ctl.reset(oc)
+                returned_paths: List[Path] = []
+                with contextlib.redirect_stdout(sink), contextlib.redirect_stderr(sink):
+                    try:
+                        q = ds
+                        for md in step.get("mds_before", []):
+                            q = q.MetaData(md)
+                        q = q.Select(SELECT[case["backend"]])
+                        if step.get("ttree"):
+                            q = q.AsROOTTTree("junk.root", "my_tree", ["col"])
+                        for md in step.get("mds_after", []):
+                            q = q.MetaData(md)
+                        r = asyncio.run(q.value_async())
+                        returned_paths = [Path(x) for x in r]
+                        obs["returned"] = [str(x) for x in r]
+                    except Exception as e:
+                        obs["err"] = err_class(e)
+                        info["message"] = str(e)[:200]
 
-        for c in ctl.calls:
-            kw = c["kwargs"]
-            args = c["args"]
-            obs["calls"].append(
-                {
-                    "image": str(args[0]) if len(args) > 0 else str(kw.get("image")),
-                    "command": [str(x) for x in (args[1] if len(args) > 1 else kw.get("command", []))],
-                    "volumes": [canon_volume(v, tmp_root) for v in (kw.get("volumes") or [])],
-                    "remove": bool(kw.get("remove", False)),
-                    "stream": bool(kw.get("stream", False)),
-                }
-            )
-            sd = c["scripts_dir"] or {}
-            if not sd.get("exists", False):
-                obs["runDirLive"] = False
-        if ctl.calls:
-            sd = ctl.calls[0]["scripts_dir"] or {}
-            obs["seenFilelist"] = sd.get("filelist")
-            have = set(sd.get("files", []))
-            obs["packageOk"] = bool(
-                all(f in have for f in row["fileNames"]) and "filelist.txt" in have and row["runner"] in sd.get("executable", [])
-            )
-            info["package_files"] = sorted(have)
-        obs["pulled"] = sum(1 for e in ctl.events if e.startswith("chunk"))
-        info["events"] = list(ctl.events)
-        if returned_paths:
-            try:
-                obs["delivered"] = all(p.is_file() and p.read_text() == payload for p in returned_paths)
-            except Exception:
-                obs["delivered"] = False
-        keep = {p.resolve() for p in returned_paths}
-        obs["leftover"] = sum(1 for x in tmp_root.iterdir() if x.resolve() not in keep)
-        return {"obs": obs, "model_inputs": mi, "info": info}
+                for c in ctl.calls:
+                    kw = c["kwargs"]
+                    args = c["args"]
+                    obs["calls"].append(
+                        {
+                            "image": str(args[0]) if len(args) > 0 else str(kw.get("image")),
+                            "command": [str(x) for x in (args[1] if len(args) > 1 else kw.get("command", []))],
+                            "volumes": [canon_volume(v, tmp_root) for v in (kw.get("volumes") or [])],
+                            "remove": bool(kw.get("remove", False)),
+                            "stream": bool(kw.get("stream", False)),
+                        }
+                    )
+                    sd = c["scripts_dir"] or {}
+                    if not sd.get("exists", False):
+                        obs["runDirLive"] = False
+                if ctl.calls:
+                    sd = ctl.calls[0]["scripts_dir"] or {}
+                    obs["seenFilelist"] = sd.get("filelist")
+                    have = set(sd.get("files", []))
+                    obs["packageOk"] = bool(
+                        all(f in have for f in row["fileNames"]) and "filelist.txt" in have and row["runner"] in sd.get("executable", [])
+                    )
+                    info["package_files"] = sorted(have)
+                obs["pulled"] = sum(1 for e in ctl.events if e.startswith("chunk"))
+                info["events"] = list(ctl.events)
+                if returned_paths:
+                    try:
+                        obs["delivered"] = all(p.is_file() and p.read_text() == step_payload for p in returned_paths)
+                    except Exception:
+                        obs["delivered"] = False
+                keep |= {p.resolve() for p in returned_paths}  # results delivered into the temp root (no output directory) stay
+                obs["leftover"] = sum(1 for x in tmp_root.iterdir() if x.resolve() not in keep)
+                out_steps.append({"obs": obs, "model_inputs": mi, "info": info})
+        return {"steps": out_steps, "planned_steps": [model_step(s) for s in steps], **out_steps[0]}
     finally:
         tempfile.tempdir = old_tmp
         os.chdir(old_cwd)
